@@ -49,7 +49,11 @@ IMPORTS = 'From PyRTL Require Import Analysis.C17Harness.'
 IMPORTS_FREQ = ('From Coq Require Import ZArith QArith.\n'
                 'From PyRTL Require Import Gen.TimingFormula.')
 COQ_TARGETS = ['theories/Analysis/C17Harness.vo', 'theories/Gen/TimingFormula.vo']
-TRUSTED = ['Analysis/PathSpec.v: cpath/wsum/is_longest (maximum over register-free paths from an Input/Const/'
+TRUSTED = ['standard-library declarations listed by coqchk -o for Props/C17 (and for no other property): the primitive '
+           'constants of Coq.Floats.PrimFloat and Coq.Numbers.Cyclic.Int63.PrimInt63 and the Uint63.*_spec / of_to_Z axioms '
+           'about primitive 63-bit integers, loaded by the evaluated float instance (imports PrimFloat, SpecFloat, FloatOps, '
+           'Uint63; not Floats, so no FloatAxioms and no real-number axioms); no theorem depends on them',
+           'Analysis/PathSpec.v: cpath/wsum/is_longest (maximum over register-free paths from an Input/Const/'
            'Register of the summed delays), chain/visits/simple_path (net paths incl. the memory write->read '
            'hop; no net and no wire repeated), reads/fanout_is (cardinality of the set of argument positions)',
            'Analysis/PathSpecOrd.v: gcpath/gsum/g_is_longest (the same over an arbitrary delay domain, delays '
